@@ -81,7 +81,9 @@ namespace chaiscript {
         // We will not catch any bad_boxed_dynamic_cast that is thrown, let the user get it
         // either way, we are not responsible if it doesn't work
         return (detail::Cast_Helper<Type>::cast((*t_conversions)->boxed_type_conversion<Type>(t_conversions->saves(), bv), t_conversions));
-      } catch (...) {
+      } catch (const std::bad_cast &) {
+        // the conversion is not applicable in this direction (bad_boxed_cast, bad_any_cast);
+        // anything else was thrown by the user's conversion function and is not ours to swallow
         try {
           // try going the other way
           return (detail::Cast_Helper<Type>::cast((*t_conversions)->boxed_type_down_conversion<Type>(t_conversions->saves(), bv),
